@@ -20,6 +20,10 @@ type NetPlan struct {
 // Route answers GET requests whose URL (scheme://host/path, query ignored)
 // equals URL.
 type Route struct {
+	// FromNth / UntilNth (1-based, 0 = unbounded) restrict the route to a range of requests to this URL:
+	// a service whose content changes between two requests of one run.
+	FromNth  int               `json:"from_nth,omitempty"`
+	UntilNth int               `json:"until_nth,omitempty"`
 	URL     string            `json:"url"`
 	Status  int               `json:"status"`
 	Header  map[string]string `json:"header,omitempty"`
@@ -37,7 +41,8 @@ type NetFault struct {
 }
 
 type simTransport struct {
-	n int
+	n      int
+	perURL map[string]int
 }
 
 func installNet() {
@@ -117,8 +122,18 @@ func (t *simTransport) RoundTrip(req *http.Request) (*http.Response, error) {
 			return mk(500, map[string]string{"Content-Type": "application/json"}, []byte(`{"message":"Server Error"}`)), nil
 		}
 	}
+	mu.Lock()
+	if t.perURL == nil {
+		t.perURL = map[string]int{}
+	}
+	t.perURL[key]++
+	urlNth := t.perURL[key]
+	mu.Unlock()
 	for _, r := range plan.Net.Routes {
 		if r.URL != key || req.Method != http.MethodGet {
+			continue
+		}
+		if (r.FromNth > 0 && urlNth < r.FromNth) || (r.UntilNth > 0 && urlNth > r.UntilNth) {
 			continue
 		}
 		body, _ := base64.StdEncoding.DecodeString(r.BodyB64)
